@@ -318,6 +318,7 @@ def stepExtended (e : SEE) (op : Opcode) : M SEE := do
   | .OP_CAT =>
     if st.length < 2 then fail .INVALID_STACK_OPERATION
     let v1 ← top st 2; let v2 ← top st 1
+    if v1.length + v2.length > 520 then fail .PUSH_SIZE      -- MAX_SCRIPT_ELEMENT_SIZE
     let st ← pop st; let st ← pop st
     pure { e with stack := st ++ [v1 ++ v2] }
   | .OP_SUBSTR =>
